@@ -60,8 +60,11 @@ def attribute(ev):
     """which property does a rejected trace event speak about"""
     e = ev.get("ev")
     if e == "Read":
-        if ev.get("how") == "ctl" and (ev.get("uden", 0) != 0 or ev.get("edge", 0) != 0):
+        # an edge-choice coordinate (it carries its lattice value): the choice made does not fit the exact cumulative sums
+        if ev.get("uden", 0) != 0 and not ev.get("narrow"):
             return "C06"
+        if ev.get("narrow"):
+            return "C19" if ev.get("coord", 0) < 0 else "C14"
         return "C14"
     if e in ("Narrow", "Widen"):
         return "C19"
